@@ -10,6 +10,7 @@ import (
 	"io"
 	"os"
 	"path/filepath"
+	"regexp"
 	"sort"
 	"strconv"
 	"strings"
@@ -263,6 +264,10 @@ func check(c *Case) (msg string, full bool, nontrivial bool) {
 		case json.Number:
 			return name + val(v.String())
 		default:
+			if c.Set.IfaceMarshal == "fail" && v != nil {
+				// the program's InterfaceMarshalFunc gives up: the field is still there, once, with the error text
+				return name + "[error: " + c.Set.IfaceErr + "]"
+			}
 			return name + val(wrapIf(c.Set.IfaceMarshal == "wrap" && v != nil, refMarshal(v, c.Set.IfaceMarshal != "")))
 		}
 	}
@@ -408,8 +413,44 @@ func check(c *Case) (msg string, full bool, nontrivial bool) {
 			return fmt.Sprintf("parts: output %q starts with %q, want %q (event %q)", body, prefix, want, c.Line), true, nontrivial
 		}
 	}
+	// colour: NO_COLOR in the environment switches it off whatever the writer says, so the bytes are
+	// those checked above; with colour on, the same parts and fields appear, each wrapped in SGR
+	// sequences (judged only for events that carry no escape character themselves)
+	wc := w
+	wc.NoColor = false
+	oldEnv, hadEnv := os.LookupEnv("NO_COLOR")
+	defer func() {
+		if hadEnv {
+			os.Setenv("NO_COLOR", oldEnv)
+		} else {
+			os.Unsetenv("NO_COLOR")
+		}
+	}()
+	os.Setenv("NO_COLOR", "1")
+	out.Reset()
+	wc.Write(c.Line)
+	if out.String() != got {
+		return fmt.Sprintf("NO_COLOR is set, yet a writer with NoColor=false renders %q, a writer with NoColor=true %q", out.String(), got), full, nontrivial
+	}
+	if !bytes.Contains(c.Line, []byte{0x1b}) && !bytes.Contains(bytes.ToLower(c.Line), []byte(`\u001b`)) {
+		os.Unsetenv("NO_COLOR")
+		out.Reset()
+		wc.Write(c.Line)
+		// a part that is empty apart from its colour codes still takes a separator: spacing is not compared
+		if plain := sgr.ReplaceAllString(out.String(), ""); squeeze(plain) != squeeze(got) {
+			return fmt.Sprintf("with colour on the line reads %q once the SGR sequences are removed, with colour off %q: parts or fields differ", plain, got), full, nontrivial
+		}
+	}
 	return "", full, nontrivial
 }
+
+var spaces = regexp.MustCompile(" +")
+
+func squeeze(s string) string {
+	return strings.ReplaceAll(strings.TrimLeft(spaces.ReplaceAllString(s, " "), " "), " \n", "\n")
+}
+
+var sgr = regexp.MustCompile("\x1b\\[[0-9;]*m")
 
 func fail(t interface{ Fatalf(string, ...interface{}) }, name string, c *Case, msg string) {
 	ev.SaveReplay("C16-"+name, c)
